@@ -131,7 +131,14 @@ def cursor_expect_leg(ctx):
         path = os.path.join(tmpd, "want%d.png" % si)
         want.save(path)
         done = []
-        res = c.expectScreen(path, 0)
+        try:
+            res = c.expectScreen(path, 0)
+        except Exception as e:  # noqa
+            ctx.violate("expect", {"input": {"option": "pseudocursor (--localcursor)", "screen": "uniform %r" % (a,), "awaited": "the same with a %dx%d box of %r at the origin" % (cw, ch, b),
+                                             "updates": ["full raw update", "expectScreen(awaited, 0)"]},
+                                   "observed": "expectScreen on a client that holds a screen raised %s instead of waiting" % exc_class(e),
+                                   "how": "VNCDoToolClient with pseudocursor on an in-memory transport"})
+            continue
         if hasattr(res, "addBoth"):
             res.addBoth(done.append)
         else:
